@@ -593,6 +593,11 @@ class Analysis:
                     for o in s.rv.ops:
                         if o.kind == "move" and o.place.is_local() and o.place.local == root and not via_param:
                             evs.append(dict(kind="move", bb=b.idx, idx=i, path=[], stmt=s, sp=s.sp))
+                        elif o.kind in ("copy", "move") and (o.place.proj or (o.place.local == root and not via_param)):
+                            # value read out of (a sub-place of) the object
+                            rp = match_place(o.place)
+                            if rp is not None and not (via_param and not o.place.proj):
+                                evs.append(dict(kind="read", bb=b.idx, idx=i, path=rp, stmt=s, sp=s.sp))
             t = b.term
             if t.kind == "call":
                 ti = len(b.stmts)
@@ -765,3 +770,40 @@ def same_value(e1, e2):
     ca = [(c.site, c.a[0].full) for c in a.walk() if c.k == "call"]
     cb = [(c.site, c.a[0].full) for c in b.walk() if c.k == "call"]
     return ca == cb
+
+
+def subst(e, fn_map):
+    """rebuild tree e, replacing nodes for which fn_map(node) returns a
+    replacement (not None)"""
+    r = fn_map(e)
+    if r is not None:
+        return r
+    new_a = []
+    changed = False
+    for x in e.a:
+        if isinstance(x, E):
+            y = subst(x, fn_map)
+            changed = changed or (y is not x)
+            new_a.append(y)
+        elif isinstance(x, list):
+            ys = [subst(y, fn_map) if isinstance(y, E) else y for y in x]
+            changed = changed or any(a is not b for a, b in zip(ys, x))
+            new_a.append(ys)
+        elif isinstance(x, dict):
+            ys = {k: (subst(v, fn_map) if isinstance(v, E) else v) for k, v in x.items()}
+            changed = changed or any(ys[k] is not x[k] for k in x)
+            new_a.append(ys)
+        else:
+            new_a.append(x)
+    if not changed:
+        return e
+    return E(e.k, *new_a, site=e.site, meta=e.meta)
+
+
+def closure_of(e):
+    """path of the closure if e is a closure aggregate, plus captured exprs"""
+    e = strip(e)
+    if e.k == "agg" and e.a[0].startswith("closure:"):
+        caps = [e.a[1][k] for k in sorted(e.a[1], key=int)]
+        return e.a[0][len("closure:"):], caps
+    return None
